@@ -74,6 +74,7 @@ MANIFEST_ENTRY = {
 SHARD_TIMEOUT = {"quick": 1500, "thorough": 4 * 3600}
 BUDGET_SMALL = 60000      # derivative calls; the largest terminating compile of an AST <= 6 nodes needs ~700
 BUDGET_RANDOM = 400000
+BUDGET_REGROUP = 150000
 
 
 def EXHAUSTIVE(tier):
@@ -97,8 +98,8 @@ def plan(tier, seed, avoid):
     specs += [{"part": "tokens", "n": 400 if tier == "quick" else 1500, "shard": i} for i in range(nt)]
     nr = 8 if tier == "quick" else 16
     specs += [{"part": "random", "n": 1500 if tier == "quick" else 3200, "shard": i} for i in range(nr)]
-    ng = 8 if tier == "quick" else 16
-    specs += [{"part": "regroup", "n": 100 if tier == "quick" else 600, "shard": i} for i in range(ng)]
+    ng = 16 if tier == "quick" else 32
+    specs += [{"part": "regroup", "n": 50 if tier == "quick" else 300, "shard": i} for i in range(ng)]
     return specs
 
 
@@ -112,9 +113,9 @@ def floors(tier):
             "observed.tokens.scanners": 1000, "observed.tokens.texts": 150000,
             "observed.tokens.texts_with_two_token_kinds": 30000,
             "observed.tokens.route_parse": 300, "observed.tokens.route_direct": 500,
-            "observed.regroup.pairs": 600, "observed.regroup.pairs_with_different_language": 300,
+            "observed.regroup.pairs": 600, "observed.regroup.pairs_with_different_language": 200,
             "observed.regroup.combined_expressions": 2000, "observed.regroup.token_sets": 600,
-            "observed.regroup.postfix_scope_pairs": 200, "observed.regroup.binary_regrouping_pairs": 200,
+            "observed.regroup.postfix_scope_pairs": 300, "observed.regroup.binary_regrouping_pairs": 50,
             "observed.random.expressions": 6000, "observed.random.with_escaped_metachar": 3000,
             "observed.random.with_redundant_group": 1500,
             "observed.oracle.re_and_glushkov_agree": 3000,
@@ -718,7 +719,7 @@ def run_regroup(mon, eng, spec):
                   ["star", ["cat", e, both_r]], ["alt", ["star", v1], ["plus", v2]]]
         for t in [both, both_r] + r.sample(combos[2:], 3):
             mon.bump("regroup", "combined_expressions")
-            check_single(mon, eng, t, strs, lambda orc: table_for(orc, strs), None, ("direct", "parse"), BUDGET_RANDOM, None)
+            check_single(mon, eng, t, strs, lambda orc: table_for(orc, strs), None, ("direct", "parse"), BUDGET_REGROUP, None)
         texts = r.sample([x for x in strs if len(x) <= 6], 200) + [""]
         for asts in ([v1, v2], [v2, v1, e]):
             mon.bump("regroup", "token_sets")
